@@ -21,14 +21,38 @@ def decorate(b, rng, claims=True, finality=False, storefaults=False, l2reorgs=Fa
     if finality:
         # how the 5 L1 info leaves are spread over L1 blocks: several updates of the info tree can share a block
         cfg["l1shape"] = rng.choice([[1, 2, 3, 4, 5], [1, 2, 3, 4, 5], [1, 1, 2, 2, 3], [1, 2, 2, 2, 3], [1, 1, 1, 2, 2], [1, 2, 3, 3, 4]])
-    fin = rng.choice([2, 3, 4, 5]) if finality else 5
+    nl1 = 5
+    if finality and rng.random() < 0.5:
+        # another L1 history: which deposits exist at which info leaf, and which leaf each claim is made against
+        hist = "".join(rng.choice("mo") for _ in range(rng.randrange(2, 8)))
+        nl1 = len(hist)
+        claims = []
+        for kind in "mo":
+            seen = 0
+            for i, c in enumerate(hist):
+                if c == kind:
+                    seen += 1
+                    if rng.random() < 0.8:     # claimed, against a leaf that covers it (not always the first one)
+                        claims.append([1 if kind == "m" else 0, seen, rng.randrange(i, nl1) if rng.random() < 0.5 else i])
+        if rng.random() < 0.5:
+            claims.sort(key=lambda c: c[2])
+        else:
+            rng.shuffle(claims)
+        cfg["l1steps"], cfg["l1claims"] = hist, claims
+        blocks, cur = [], 1
+        for i in range(nl1):
+            blocks.append(cur)
+            if rng.random() < 0.6:
+                cur += 1
+        cfg["l1shape"] = blocks if rng.random() < 0.5 else list(range(1, nl1 + 1))
+    fin = rng.choice(list(range(1 if nl1 < 3 else 2, nl1 + 1))) if finality else 5
     if finality:
         steps.append(dict(a="finalize", fin=fin))
     for s in b["steps"]:
         s = dict(s)
         if s["a"] == "block":
             s["nc"] = rng.choice([0, 1, 1]) if claims else 0
-            if finality and fin < 5 and rng.random() < 0.3:
+            if finality and fin < nl1 and rng.random() < 0.3:
                 fin += 1
                 steps.append(dict(a="finalize", fin=fin))
         if s["a"] == "tick" and storefaults and s.get("o") == "ok" and rng.random() < 0.5:
